@@ -22,5 +22,10 @@ def run(tier):
                 c.covers_missing.append(entry + ":" + cov)
         for entry, r in res.items():
             for v in r["violations"] or []:
+                if v["kind"] == "unwind":
+                    # recursion deeper than the bound on a feasible path: a candidate for unbounded recursion on peer input
+                    c.handle("ship", entry, v, make_tape=ship_tape, hang_s=6,
+                             expect={"any": ["VERIF-HANG", "stack overflow", "goroutine stack exceeds"]})
+                    continue
                 c.handle("ship", entry, v, make_tape=ship_tape, hang_s=6)
     return c.finish()
